@@ -3,17 +3,17 @@ CONSTANTS
   DeepKinds <- MC_Deep
   ShallowKinds <- MC_Shallow
   StaticKinds <- MC_Static
-  Depth = 4
-  ShallowDepth = 3
-  Media = {"mem"}
+  Depth = 2
+  ShallowDepth = 2
+  Media = {"mem", "reader", "file", "alias", "over"}
   Sizes = {"small"}
   BigSaves = 1
-  Variant = "drop_hist"
+  Variant = "faithful"
 INVARIANT TypeOK
 INVARIANT Stutter
 INVARIANT Idempotent
 INVARIANT SaveLoadOk
 INVARIANT MediumIndependent
-
+INVARIANT Emit
 PROPERTY StutterStep
 CHECK_DEADLOCK FALSE
